@@ -19,6 +19,7 @@ import (
 	"fmt"
 	"math/big"
 	"math/rand/v2"
+	"os"
 	"sort"
 	"strings"
 	"sync"
@@ -45,7 +46,29 @@ var (
 )
 
 // element replacement classes
-var editClasses = []string{"neighbour", "generator", "double", "negation", "identity", "parallel-chain", "stale(previous-contribution)"}
+var editClasses = []string{"neighbour", "generator", "double", "negation", "identity", "parallel-chain", "stale(previous-contribution)", outOfSubgroup}
+
+// outOfSubgroup: P replaced by P+T, T≠0 of order dividing the cofactor: on the curve, outside the
+// prime-order subgroup.  Must be rejected at deserialization or by Verify.  (No such T in G1 of
+// BN254: cofactor 1.)
+const outOfSubgroup = "out-of-subgroup(+cofactor-torsion)"
+
+// effort is the size of the adversarial workload of one ceremony.
+type effort struct {
+	perClass  int  // element edits per (vector, class); <= 0: the thorough rule (every element)
+	nFull     int  // element edits also offered inside the whole transcript
+	nBits     int  // challenge bit flips
+	allChains bool // every chain-level case, or one PRNG-chosen case per class
+	twoKs     bool // consistent edits on contribution 1 and on a later one, or on one only
+	workers   int
+}
+
+func (e effort) heavier(o effort) bool {
+	if (e.perClass <= 0) != (o.perClass <= 0) {
+		return e.perClass <= 0
+	}
+	return e.perClass > o.perClass
+}
 
 func hx(b []byte) string { return hex.EncodeToString(b) }
 
@@ -194,6 +217,9 @@ func sigOf(class, name string) string {
 	for _, pre := range []string{"element-in-full-transcript/", "element/"} {
 		if strings.HasPrefix(class, pre) {
 			fam = strings.TrimSuffix(pre, "/")
+			if strings.HasSuffix(class, outOfSubgroup) { // its own class: a different defence (decoder / subgroup test)
+				fam += "-out-of-subgroup"
+			}
 		}
 	}
 	if strings.HasPrefix(class, "chain/") {
@@ -306,6 +332,10 @@ func (p *phase) candidateEdits(k int) (all []edit, trivial int) {
 				rep, _ = p.ops.Scale(s.Group, cur, big.NewInt(-1))
 			case "identity":
 				rep, _ = p.ops.Scale(s.Group, cur, big.NewInt(0))
+			case outOfSubgroup:
+				if np, ok := p.ops.AddTorsion(s.Group, cur); ok {
+					rep = np
+				}
 			case "parallel-chain":
 				rep = append([]byte{}, api.At(par, s)...)
 			case "stale(previous-contribution)":
@@ -331,7 +361,8 @@ func (p *phase) candidateEdits(k int) (all []edit, trivial int) {
 // elementEdits: single-element replacements in contribution k, verified against its true predecessor.
 // perClass <= 0 means complete enumeration; otherwise all proof slots plus perClass PRNG-chosen
 // parameter slots per (vector, class) are taken.
-func (p *phase) elementEdits(k, perClass, nFull, workers int) {
+func (p *phase) elementEdits(k int, ef effort) {
+	perClass, nFull, workers := ef.perClass, ef.nFull, ef.workers
 	all, _ := p.candidateEdits(k)
 	var chosen []edit
 	if perClass <= 0 {
@@ -390,9 +421,16 @@ func (p *phase) elementEdits(k, perClass, nFull, workers int) {
 		var de, ve error
 		_, pan := safeS(p.ph+"/element", func() error { de, ve = st(edited); return nil })
 		if de != nil && pan == "" {
-			p.r.Inconclusive("edited-contribution-does-not-decode")
-			p.r.Count(p.ph+".element-edit.decode-error", 1)
-			return
+			if e.class != outOfSubgroup {
+				p.r.Inconclusive("edited-contribution-does-not-decode")
+				p.r.Count(p.ph+".element-edit.decode-error", 1)
+				return
+			}
+			// the one class whose replacement is not a subgroup point: the decoder may stop it
+			p.r.Count(p.ph+".out-of-subgroup.rejected-at-deserialization", 1)
+			ve = fmt.Errorf("rejected at deserialization: %w", de)
+		} else if e.class == outOfSubgroup && ve != nil {
+			p.r.Count(p.ph+".out-of-subgroup.decoded,rejected-by-Verify", 1)
 		}
 		part := "parameters"
 		if e.slot.Proof {
@@ -692,7 +730,7 @@ func mustLayout(p *phase, b []byte) *api.Layout {
 }
 
 // chainCases: attacks on the order / provenance of whole contributions.
-func (p *phase) chainCases() {
+func (p *phase) chainCases(all bool) {
 	try1 := func(class, name string, chain [][]byte) {
 		err, pan := safeS(p.ph+"/chain", func() error { return p.full(chain) })
 		p.reject("chain/"+class, name, err, pan, func() map[string]any {
@@ -701,7 +739,13 @@ func (p *phase) chainCases() {
 	}
 	// every attack is offered as is and with all Challenge fields emptied (the verifier then fills
 	// them in itself: the tolerance must not turn a wrong chain into an accepted one)
-	try := func(class, name string, chain [][]byte) {
+	type ccase struct {
+		class, name string
+		chain       [][]byte
+	}
+	var cases []ccase
+	try := func(class, name string, chain [][]byte) { cases = append(cases, ccase{class, name, chain}) }
+	run := func(class, name string, chain [][]byte) {
 		try1(class, name, chain)
 		emptied := make([][]byte, len(chain))
 		for i := range chain {
@@ -773,6 +817,23 @@ func (p *phase) chainCases() {
 		// honest contribution k with the Challenge emptied and k-1 missing
 		try("built-on-k-2", fmt.Sprintf("without[%d],challenge-of-[%d]-emptied", k-1, k),
 			append(append([][]byte{}, p.A[:k-2]...), api.SetChallenge(p.A[k-1], p.layouts[k-1], nil)))
+	}
+	if !all { // one PRNG-chosen case per class
+		by := map[string][]ccase{}
+		var classes []string
+		for _, c := range cases {
+			if _, ok := by[c.class]; !ok {
+				classes = append(classes, c.class)
+			}
+			by[c.class] = append(by[c.class], c)
+		}
+		cases = cases[:0]
+		for _, cl := range classes {
+			cases = append(cases, by[cl][p.rng.IntN(len(by[cl]))])
+		}
+	}
+	for _, c := range cases {
+		run(c.class, c.name, c.chain)
 	}
 }
 
@@ -879,64 +940,129 @@ func twinOut(a, b *big.Int, k, muls int, p *big.Int) *big.Int {
 type p1Job struct {
 	ops     *api.Ops
 	N       uint64
+	ef      effort
 	ph      *phase
 	commons [chainLen + 1][]byte // commons[k] = VerifyPhase1 output of A[:k] under beacon1
 	ok      bool
 }
 
+// selectCurves: the curves of this run and, per curve, whether it gets the full workload.
+// VERIF_CURVES (comma separated names) restricts the run; curves named there always get the full
+// workload of the tier.  Without it the quick tier runs bn254 and bls12-377 in full and one
+// reduced ceremony on each of the other five; thorough runs all seven in full.
+func selectCurves(t *testing.T, quick bool) (cs []*api.Ops, full map[string]bool) {
+	full = map[string]bool{}
+	if env := os.Getenv("VERIF_CURVES"); env != "" {
+		for _, n := range strings.Split(env, ",") {
+			n = strings.TrimSpace(n)
+			var found *api.Ops
+			for _, o := range allCurves {
+				if o.Name == n {
+					found = o
+				}
+			}
+			if found == nil {
+				t.Fatalf("BROKEN-CHECK property=C18: VERIF_CURVES names unknown curve %q", n)
+			}
+			if !full[n] {
+				cs = append(cs, found)
+				full[n] = true
+			}
+		}
+		return
+	}
+	for _, o := range allCurves {
+		cs = append(cs, o)
+		full[o.Name] = !quick
+	}
+	for _, o := range tierCurves(true) {
+		full[o.Name] = true
+	}
+	return
+}
+
 func TestC18(t *testing.T) {
 	r := vcore.Start(t, "C18")
-	curves := tierCurves(r.Quick())
-	perClass := r.Pick(6, 0) // quick: PRNG subset per (vector, class); thorough: every element
-	nFull := r.Pick(4, 16)
-	nBits := r.Pick(24, 40)
-	workers := 6
+	curves, fullCurve := selectCurves(t, r.Quick())
+	var names []string
+	for _, o := range curves {
+		n := o.Name
+		if !fullCurve[n] {
+			n += "(reduced)"
+		}
+		names = append(names, n)
+	}
+	r.Set("curves", names)
+	// quick: PRNG subset per (vector, class); thorough: the enumeration rule of elementEdits
+	fullEf := effort{perClass: r.Pick(6, 0), nFull: r.Pick(4, 16), nBits: r.Pick(24, 40), allChains: true, twoKs: true, workers: 6}
+	// reduced ceremonies (five curves of the quick tier, universal-phase-1 ceremonies): all update-proof
+	// elements, both ends of every vector under every class, one chain-level case per class
+	lightEf := effort{perClass: r.Pick(2, 4), nFull: r.Pick(2, 4), nBits: r.Pick(4, 8), allChains: false, twoKs: false, workers: 6}
 
 	// ---- plan: circuits per curve (deterministic from the seed)
 	type c2 struct {
-		ops *api.Ops
-		idx int
-		c   *circ
-		p1  *p1Job
-		n1  int
+		ops  *api.Ops
+		idx  int
+		c    *circ
+		p1   *p1Job
+		n1   int
+		ef   effort
+		mult uint64 // phase-1 domain / minimal domain of the circuit
 	}
 	var circuitsPlan []*c2
 	p1jobs := map[string]*p1Job{}
 	var p1list []*p1Job
-	for _, o := range curves {
+	jobFor := func(o *api.Ops, N uint64, ef effort) *p1Job {
+		key := fmt.Sprintf("%s/N=%d", o.Name, N)
+		j := p1jobs[key]
+		if j == nil {
+			j = &p1Job{ops: o, N: N, ef: ef}
+			p1jobs[key] = j
+			p1list = append(p1list, j)
+		} else if ef.heavier(j.ef) {
+			j.ef = ef
+		}
+		return j
+	}
+	for ci, o := range curves {
 		rng := r.Rand("plan/" + o.Name)
 		type shape struct {
 			N    uint64
 			nCom int
+			mult uint64
+			ef   effort
 		}
 		var shapes []shape
-		if r.Quick() {
+		switch {
+		case !fullCurve[o.Name]:
+			shapes = []shape{{8, 1 + rng.IntN(2), 1, lightEf}}
+		case r.Quick():
 			ns := []uint64{2, 4, 8, 16, 32, 64}
-			shapes = []shape{{ns[rng.IntN(3)], 0}, {ns[2+rng.IntN(4)], 1}, {ns[3+rng.IntN(3)], 2}, {64, rng.IntN(3)}}
-		} else {
+			shapes = []shape{{ns[rng.IntN(3)], 0, 1, fullEf}, {ns[2+rng.IntN(4)], 1, 1, fullEf}, {ns[3+rng.IntN(3)], 2, 1, fullEf}, {64, rng.IntN(3), 1, fullEf}}
+			// universal phase 1: a domain strictly larger than the circuit's (2x or 8x, alternating over curves and seeds)
+			shapes = append(shapes, shape{ns[1+rng.IntN(2)], rng.IntN(3), []uint64{2, 8}[(ci+int(r.Seed))%2], lightEf})
+		default:
 			// every domain size 2..64, every commitment count at small and large domains
-			shapes = []shape{{2, 0}, {4, 0}, {8, 1}, {8, 2}, {16, 0}, {16, 1}, {32, 2}, {32, 0}, {64, 1}, {64, 2}}
+			for _, s := range [][2]uint64{{2, 0}, {4, 0}, {8, 1}, {8, 2}, {16, 0}, {16, 1}, {32, 2}, {32, 0}, {64, 1}, {64, 2}} {
+				shapes = append(shapes, shape{s[0], int(s[1]), 1, fullEf})
+			}
+			shapes = append(shapes, shape{[]uint64{2, 4, 8}[rng.IntN(3)], rng.IntN(3), 8, lightEf}, shape{[]uint64{8, 16, 32}[rng.IntN(3)], 1 + rng.IntN(2), 2, lightEf},
+				shape{4, 0, 2, lightEf}, shape{8, 2, 8, lightEf})
 		}
 		for i, sh := range shapes {
 			c, err := findCircuit(rng, o.ID.ScalarField(), sh.nCom, sh.N)
 			if err != nil {
 				t.Fatalf("BROKEN-CHECK property=C18: circuit generation: %v", err)
 			}
-			key := fmt.Sprintf("%s/N=%d", o.Name, c.N)
-			j := p1jobs[key]
-			if j == nil {
-				j = &p1Job{ops: o, N: c.N}
-				p1jobs[key] = j
-				p1list = append(p1list, j)
-			}
-			circuitsPlan = append(circuitsPlan, &c2{ops: o, idx: i, c: c, p1: j, n1: 1 + rng.IntN(chainLen)})
+			j := jobFor(o, c.N*sh.mult, sh.ef)
+			circuitsPlan = append(circuitsPlan, &c2{ops: o, idx: i, c: c, p1: j, n1: 1 + rng.IntN(chainLen), ef: sh.ef, mult: sh.mult})
 		}
 	}
 
 	// ---- phase 1, once per (curve, N)
 	vcore.Parallel(len(p1list), 8, func(i int) {
 		j := p1list[i]
-		runPhase1(r, j, i, perClass, nFull, nBits, workers)
+		runPhase1(r, j, i)
 	})
 
 	// ---- phase 2 per circuit
@@ -946,7 +1072,7 @@ func TestC18(t *testing.T) {
 			r.Inconclusive("phase-1-failed")
 			return
 		}
-		runPhase2(r, c.ops, c.idx, c.c, c.p1, c.n1, perClass, nFull, nBits, workers)
+		runPhase2(r, c.ops, c.idx, c.c, c.p1, c.n1, c.ef)
 	})
 
 	// ---- twin circuits: a chain for one circuit offered for a circuit of identical shape
@@ -983,6 +1109,8 @@ func TestC18(t *testing.T) {
 	r.Require("keys.circuits.commitments=1", 1)
 	r.Require("keys.circuits.commitments=2", 1)
 	r.Require("keys.cross-key-rejected", 4)
+	r.Require("universal.honest-chains-accepted", 1)
+	r.Require("universal.keys.proofs-verified", 3)
 	busyMu.Lock()
 	bs := map[string]float64{}
 	for k, v := range busy {
@@ -995,18 +1123,19 @@ func TestC18(t *testing.T) {
 		level = "fault_enumeration"
 	}
 	r.Finish(level,
-		"per curve: domain sizes 2..64 and generated circuits with 0/1/2 commitments; two honest 4-contribution chains per phase, every participant working from bytes; all prefixes (0..4 contributions) must verify, Challenge must equal SHA-256 of the previous serialization, keys of a PRNG-chosen (n1,n2) in 1..4 x 1..4 must prove+verify 3 witnesses and not be interchangeable with single-party keys; must-reject: single-element replacement (neighbour, generator, double, negation, identity, same slot of the parallel chain, same slot of the previous contribution) of elements of one contribution (thorough: every element incl. update proofs under neighbour/generator/double/parallel-chain, the other three classes on all proof elements, small contributions, vector ends and a PRNG quarter; quick: all proof elements + ends + PRNG subset per vector and class), consistent multi-element re-basings and transplanted vectors / update proofs, Challenge edits, reordered/spliced/dropped/duplicated/forked chains, foreign commons / circuit / domain. distinct = (curve, N or circuit, phase, class, slot or case); non-trivial = the edited bytes differ from the honest ones",
+		"per curve: domain sizes 2..64 and generated circuits with 0/1/2 commitments; two honest 4-contribution chains per phase, every participant working from bytes; all prefixes (0..4 contributions) must verify, Challenge must equal SHA-256 of the previous serialization, keys of a PRNG-chosen (n1,n2) in 1..4 x 1..4 must prove+verify 3 witnesses and not be interchangeable with single-party keys; must-reject: single-element replacement (neighbour, generator, double, negation, identity, same slot of the parallel chain, same slot of the previous contribution) of elements of one contribution (thorough: every element incl. update proofs under neighbour/generator/double/parallel-chain, the other three classes on all proof elements, small contributions, vector ends and a PRNG quarter; quick: all proof elements + ends + PRNG subset per vector and class), consistent multi-element re-basings and transplanted vectors / update proofs, Challenge edits, reordered/spliced/dropped/duplicated/forked chains, foreign commons / circuit / domain; out-of-subgroup replacement P+T (cofactor torsion) in G1 and G2; ceremonies whose phase-1 domain is 2x / 8x the circuit's minimal domain (honest chain verifies, keys prove and verify, reduced attack set); quick tier: bn254 and bls12-377 in full, one reduced ceremony on each of the other five curves; VERIF_CURVES restricts the curves. distinct = (curve, N or circuit, phase, class, slot or case); non-trivial = the edited bytes differ from the honest ones",
 		[]string{
 			"soundness error of the random-linear-combination and hash-to-curve checks (~2^-250) treated as never",
 			"contributions are generated with crypto/rand: case *selection* is seed-deterministic, the group elements are not; replay files carry the bytes",
-			"replacement points are valid subgroup points (the decoder rejects others before Verify is reached)",
+			"replacement points are valid subgroup points except in the out-of-subgroup class (P+T, T of order dividing the cofactor), for which rejection by the decoder counts as rejection; G1 of BN254 has cofactor 1 (class absent there)",
 			"an emptied Challenge field is a tolerance stated in the code (verifier fills it in): recorded, required only to leave the output unchanged",
 			"N=1: NewPhase1/Initialize accept any power of two and N = NextPowerOfTwo(nbConstraints) is gnark's own recipe, so a one-constraint circuit (which single-party Setup handles) is taken to be in the domain of 'every domain size'",
 		})
 }
 
-func runPhase1(r *vcore.Run, j *p1Job, idx int, perClass, nFull, nBits, workers int) {
+func runPhase1(r *vcore.Run, j *p1Job, idx int) {
 	o := j.ops
+	ef := j.ef
 	label := fmt.Sprintf("%s/N=%d", o.Name, j.N)
 	init, err := o.P1New(j.N)
 	if err != nil {
@@ -1056,11 +1185,15 @@ func runPhase1(r *vcore.Run, j *p1Job, idx int, perClass, nFull, nBits, workers 
 	if idx%2 == 1 {
 		k = 2 + p.rng.IntN(chainLen-1)
 	}
-	p.elementEdits(k, perClass, nFull, workers)
-	p.consistentEdits(1)
-	p.consistentEdits(2 + p.rng.IntN(chainLen-1))
-	p.challengeEdits(k, nBits, func(chain [][]byte) ([]byte, error) { return o.P1Verify(j.N, beacon1, chain) })
-	p.chainCases()
+	p.elementEdits(k, ef)
+	if ef.twoKs {
+		p.consistentEdits(1)
+		p.consistentEdits(2 + p.rng.IntN(chainLen-1))
+	} else {
+		p.consistentEdits(1 + p.rng.IntN(chainLen))
+	}
+	p.challengeEdits(k, ef.nBits, func(chain [][]byte) ([]byte, error) { return o.P1Verify(j.N, beacon1, chain) })
+	p.chainCases(ef.allChains)
 	// foreign domain size
 	for _, N2 := range []uint64{j.N * 2, j.N / 2} {
 		if N2 < 2 {
@@ -1085,12 +1218,16 @@ func pkBytes(pk groth16.ProvingKey) []byte {
 	return b.Bytes()
 }
 
-func runPhase2(r *vcore.Run, o *api.Ops, idx int, c *circ, j *p1Job, n1, perClass, nFull, nBits, workers int) {
+func runPhase2(r *vcore.Run, o *api.Ops, idx int, c *circ, j *p1Job, n1 int, ef effort) {
 	label := fmt.Sprintf("%s/circuit%d(N=%d,commitments=%d)", o.Name, idx, c.N, c.nCom)
+	universal := j.N > c.N
+	if universal {
+		label = fmt.Sprintf("%s/circuit%d(N=%d,commitments=%d,phase1-N=%d)", o.Name, idx, c.N, c.nCom, j.N)
+	}
 	rng := r.Rand("p2/" + label)
 	field := o.ID.ScalarField()
 	commons := j.commons[n1]
-	desc := map[string]any{"curve": o.Name, "N": c.N, "circuit": c.spec.String(), "phase1_contributions": n1, "commons": hx(commons)}
+	desc := map[string]any{"curve": o.Name, "N": c.N, "phase1_N": j.N, "circuit": c.spec.String(), "phase1_contributions": n1, "commons": hx(commons)}
 	var init []byte
 	err, pan := safe(func() (e error) { init, e = o.P2New(c.ccs, commons); return })
 	if err != nil || pan != "" {
@@ -1104,8 +1241,14 @@ func runPhase2(r *vcore.Run, o *api.Ops, idx int, c *circ, j *p1Job, n1, perClas
 	r.Count(fmt.Sprintf("p2.ceremonies.N=%d", c.N), 1)
 	r.Count(fmt.Sprintf("p2.ceremonies.commitments=%d", c.nCom), 1)
 	r.Count(fmt.Sprintf("p2.ceremonies.phase1-contributions=%d", n1), 1)
+	if universal {
+		r.Count(fmt.Sprintf("universal.ceremonies.phase1-domain=%dx-minimal", j.N/c.N), 1)
+	}
 	if !p.build() || !p.positives() {
 		return
+	}
+	if universal {
+		r.Count("universal.honest-chains-accepted", 1)
 	}
 
 	// ---- the extracted keys work
@@ -1149,6 +1292,9 @@ func runPhase2(r *vcore.Run, o *api.Ops, idx int, c *circ, j *p1Job, n1, perClas
 			continue
 		}
 		r.Count("keys.proofs-verified", 1)
+		if universal {
+			r.Count("universal.keys.proofs-verified", 1)
+		}
 		if firstProof == nil {
 			firstProof, firstPub = proof, pub
 		}
@@ -1212,17 +1358,21 @@ func runPhase2(r *vcore.Run, o *api.Ops, idx int, c *circ, j *p1Job, n1, perClas
 	if idx%2 == 1 {
 		k = 2 + rng.IntN(chainLen-1)
 	}
-	p.elementEdits(k, perClass, nFull, workers)
-	p.consistentEdits(1)
-	p.consistentEdits(2 + rng.IntN(chainLen-1))
-	p.challengeEdits(k, nBits, func(chain [][]byte) ([]byte, error) {
+	p.elementEdits(k, ef)
+	if ef.twoKs {
+		p.consistentEdits(1)
+		p.consistentEdits(2 + rng.IntN(chainLen-1))
+	} else {
+		p.consistentEdits(1 + rng.IntN(chainLen))
+	}
+	p.challengeEdits(k, ef.nBits, func(chain [][]byte) ([]byte, error) {
 		_, vk, err := o.P2Verify(c.ccs, commons, beacon2, chain)
 		if err != nil {
 			return nil, err
 		}
 		return vkBytes(vk), nil
 	})
-	p.chainCases()
+	p.chainCases(ef.allChains)
 
 	// foreign commons: the parallel phase-1 transcript, another beacon, one contribution fewer / more
 	foreign := func(class, name string, ccs constraint.ConstraintSystem, cm []byte) {
@@ -1236,10 +1386,10 @@ func runPhase2(r *vcore.Run, o *api.Ops, idx int, c *circ, j *p1Job, n1, perClas
 			return map[string]any{"case": name, "foreign_commons": hx(cm), "chain": hxs(p.A)}
 		})
 	}
-	if cb, err := o.P1Verify(c.N, beacon1, j.ph.B[:n1]); err == nil {
+	if cb, err := o.P1Verify(j.N, beacon1, j.ph.B[:n1]); err == nil {
 		foreign("commons", "commons-of-parallel-phase1-transcript", c.ccs, cb)
 	}
-	if cb, err := o.P1Verify(c.N, beacon1b, j.ph.A[:n1]); err == nil {
+	if cb, err := o.P1Verify(j.N, beacon1b, j.ph.A[:n1]); err == nil {
 		foreign("commons", "commons-sealed-with-another-beacon", c.ccs, cb)
 	}
 	foreign("commons", "commons-of-one-contribution-fewer", c.ccs, j.commons[n1-1])
@@ -1254,7 +1404,7 @@ func runPhase2(r *vcore.Run, o *api.Ops, idx int, c *circ, j *p1Job, n1, perClas
 			continue
 		}
 		ccs2, err := frontend.Compile(field, r1cs.NewBuilder, s2.New())
-		if err != nil || nextPow2(ccs2.GetNbConstraints()) != c.N {
+		if err != nil || nextPow2(ccs2.GetNbConstraints()) > j.N {
 			continue
 		}
 		foreign("circuit", fmt.Sprintf("same-commons,circuit-with-muls%+d", d), ccs2, commons)
